@@ -320,6 +320,17 @@ def h_fidelity(eng, tier, lang):
             # numeric literals are cast when no type is declared)
             ok = bool(minus or plus) and has_token((minus or plus)[0], name)
             obs.append(Ob('toggle-local|%s|%s' % (kind, lang), ok, case))
+        if kind in ('var_type', 'ret_type') and lang == 'kotlin':
+            # kotlin: an integer literal of a non-default integral type carries its conversion when no declared type fixes it
+            e = d.expr if isinstance(d, ast.VariableDeclaration) else d.body
+            tn = getattr(getattr(e, 'integer_type', None), 'name', None)
+            if isinstance(e, ast.IntegerConstant) and not isinstance(e, ast.BottomConstant) and tn in ('Long', 'Short', 'Byte'):
+                without_text = other if carried_before else base
+                wants = ['%s.to%s()' % (e.literal, tn), '(%s).to%s()' % (e.literal, tn)]
+                hit = [l for l in without_text.splitlines() if any(x in l for x in wants)]
+                obs.append(Ob('literal-keeps-its-type-without-declared-type|%s|%s' % (kind, lang), bool(hit),
+                              dict(case, expected=wants[0], lines=(plus if carried_before else minus)[:3])))
+                eng.event('wide-literal-checked')
         if kind in ('var_type', 'ret_type', 'diamond') and ttype is not None:
             toks = user_class_names(p0, ttype if kind != 'diamond' else None) if kind != 'diamond' else set()
             if kind == 'diamond' and isinstance(d, ast.New):
@@ -359,7 +370,8 @@ def jobs(tier):
         out.append(Job('fidelity-%s' % lang, h_fidelity, dict(tier=tier, lang=lang), split_depth=2, functions=funcs(),
                        require_events=['inventory', 'perturbed:final', 'perturbed:diamond'] +
                        (['perturbed:var_type'] if lang in EXPRESSIBLE['var_type'] else []) +
-                       (['perturbed:override', 'perturbed:open'] if lang in EXPRESSIBLE['override'] else []),
+                       (['perturbed:override', 'perturbed:open'] if lang in EXPRESSIBLE['override'] else []) +
+                       (['wide-literal-checked'] if lang == 'kotlin' else []),
                        budget_s=2400, crosscheck_every=100, setup=lambda t=tier: members(t),
                        bounds='every family member (41 fixtures + %d generated programs per language) x perturbation kind '
                               '{declared variable type, declared return type, diamond flag, finality, type argument, override marker, overridability} x every site of that kind'
